@@ -204,14 +204,23 @@ def stepOp (st : St) (j : Json) : St × Json :=
           else if (intOpt j "lim").isSome then (st, Json.mkObj [("count", jnat es.length)])
           else (st, Json.mkObj [("rows", jentries false es)])
 
-def runCase (j : Json) : Json :=
+def initSt (j : Json) : St :=
   let profile := (strOpt j "profile").getD "default"
-  let st0 : St := {
-    tx := { db := { profiles := [⟨1, profile, 0⟩] } }, h := { cache := [(profile, 1, 0)], nextKey := 1 },
+  { tx := { db := { profiles := [⟨1, profile, 0⟩] } }, h := { cache := [(profile, 1, 0)], nextKey := 1 },
     now := int! j "now", page := (natOpt j "page").getD 32, active := profile }
-  let (_, outs) := (arr! j "ops").foldl (fun (acc : St × Array Json) op =>
+
+def runOps (st0 : St) (ops : List Json) : St × Array Json :=
+  ops.foldl (fun (acc : St × Array Json) op =>
     let (st', o) := stepOp acc.1 op
     (st', acc.2.push o)) (st0, #[])
-  .arr outs
+
+def runCase (j : Json) : Json := .arr (runOps (initSt j) (arr! j "ops")).2
+
+/-- ordered dump of one profile's published rows (all kinds), as the harness dumps a reopened store -/
+def dumpProfile (st : St) (profile : String) : Json :=
+  match st.tx.db.profiles.find? (·.name == profile) with
+  | none => .null
+  | some p => jentries true ((sortById (st.tx.db.items.filter (·.pid == p.id))).map toEntry')
+where toEntry' (it : Item) : Entry := ⟨it.kind, it.cat, it.name, it.value, it.tags⟩
 
 end Driver.Store
